@@ -186,6 +186,9 @@ def main():
             r = sh(f"cd {repo} && cargo test --workspace --no-fail-fast --offline 2>&1 | grep -E '^test result|error(\\[|:)' | head -8")
             tests = "pass" if ("failed" not in r.stdout.replace("0 failed", "") and "error" not in r.stdout and "test result" in r.stdout) else "FAIL"
         props = ALL_PROPS if (a.props == "all" or not expect) else expect
+        if a.props.startswith("C"):
+            # an explicit list of checks (e.g. after one check's generator changed)
+            props = a.props.split(",")
         verdicts = {}
         for p in props:
             t0 = time.time()
